@@ -19,6 +19,13 @@ CLAIMED = {
             'parse_timestamp), NATIVE = little endian on this host; values wider than the bound are outside', '5 C11'),
 }
 
+CLAIMED['C17'] = (
+    'trichotomy, derived-operator consistency, transitivity (all triples), the prescribed chain and hash consistency '
+    'are decided by the solver over symbolic version codes constrained to the current TlsVersion table, running the '
+    'real TlsProtocolVersion methods on stand-in members; a native side condition ties the stand-in to the real members',
+    'stand-in member objects (object.__new__ + symbolic code); codes unique per member (checked natively each run)',
+    '5 C17')
+
 NOT_APPLICABLE = {
     'C19': 'asymptotic claim (work linear in input size for n, 2n, 4n, ...): a bounded symbolic execution fixes the '
            'input size, so a pass says nothing about growth; the total-work bound needs an amortised argument over '
